@@ -6,6 +6,8 @@ def run(tier, report):
     # unbounded companion: the uniqueness bookkeeping as an inductive invariant (any number of rows and data sets)
     from harness import core
     report.notes["unbounded_argument"] = core.apalache_inductive("MC_UniqueInductive.tla", "IndInit", "IndInv")
+    # ... and the same invariant proved with TLAPS for any set of keys (Spec => []Safety)
+    report.notes["unbounded_proof"] = core.tlaps_proof("UniqueProof.tla")
     # two validators alive at the same time on one Cid (known finding D45)
     from harness import shared_cid
     shared_cid.run(report)
